@@ -936,14 +936,34 @@ def _take(path):
             p.assume(allin_axioms(xs, _u.s))
             return BoolV(allin(xs, _u.s))
         _method(u, 'issuperset', issuperset)
-        _method(u, 'rsub', lambda p, a, k: ObjV('Unique', {'__or__': FuncV('or', lambda p2, a2, k2: ObjV('Unique', {}, name='notfound'))}, name='rsub'))
+
+        def rsub(p, a, k, _nm=nm):
+            # contract of Unique.rsub (unit tools.Unique.rsub): the names of the argument that are not in the receiver, in the argument's order
+            r = ObjV('Unique', {}, name='rsub(%s)' % _nm)
+            r.of = (_nm, a[-1])
+            r.fields['__or__'] = FuncV('or', lambda p2, a2, k2, _r=r: _notfound(_r, a2[-1]))
+            return r
+        _method(u, 'rsub', rsub)
+
+    trace = {}
+
+    def _notfound(left, right):
+        nf = ObjV('Unique', {}, name='notfound')
+        nf.parts = (left, right)
+        trace['notfound'] = nf
+        return nf
+
+    def list_(p, a, k):
+        l = ObjV('list', {}, name='list(notfound)')
+        l.of = a[0] if a else None
+        return l
 
     def unique_ctor(p, a, k):
         src = seq_of_iterable(a[0])
         p.assume([seqs.st_fold_facts(seqs.empty, src, seqs.slen(src)), seqs.st_mem_infirst(src)])
         return UniqueObj(p, fold_add(seqs.empty, src, seqs.slen(src)), 'Unique(%s)' % a[0].name)
     tools = ObjV('module', {'Unique': FuncV('tools.Unique', unique_ctor)}, name='tools')
-    g = dict(lib.builtins(), tools=tools, list=FuncV('list', lambda p, a, k: ObjV('list', {}, name='list(notfound)')))
+    g = dict(lib.builtins(), tools=tools, list=FuncV('list', list_))
     extra = {'globals': g, 'closed_form': {'SetComp#0': lambda interp, env, node: pure_pairset_comprehension(path, interp, env, node)}}
 
     def model_axis(L0, arg):
@@ -962,6 +982,21 @@ def _take(path):
         path.oblige('post/source-unchanged', 'post', And(view(d)[0] == d.O0, view(d)[1] == d.P0, view(d)[2] == d.C0))
         if outcome[0] == 'raise':
             path.oblige('post/KeyError-iff-unknown-name-requested', 'post', And(BoolVal(outcome[1] == 'KeyError'), bad))
+            # the error names exactly the requested names that are unknown: list(objects-not-found | properties-not-found), each side being
+            # rsub of the requested names (of nothing when that argument is None or empty)
+            exc = path.ghost.get('raised')
+            ea = getattr(exc, 'exc_args', None) or [None]
+            nf = trace.get('notfound')
+            okm = len(ea) == 1 and getattr(ea[0], 'cls', None) == 'list' and getattr(ea[0], 'of', None) is nf and nf is not None
+            path.oblige('post/KeyError-carries-list(notfound)', 'post', BoolVal(bool(okm)))
+            if okm:
+                for side, nm in zip(nf.parts, ('objects', 'properties')):
+                    ax, arg = getattr(side, 'of', (None, None))
+                    if isinstance(arg, TupleV):
+                        good = And(BoolVal(ax == nm and not arg.items), (seqs.slen(args[nm].s) == 0) if given[nm] else BoolVal(True))
+                    else:
+                        good = And(BoolVal(ax == nm and given[nm] and arg is args[nm]), (seqs.slen(args[nm].s) > 0) if given[nm] else BoolVal(False))
+                    path.oblige('post/notfound-%s-are-the-requested-unknown-ones' % nm, 'post', good)
             return
         path.oblige('post/accepted', 'post', Not(bad))
         r = outcome[1]
@@ -1173,8 +1208,35 @@ def _triple_eq(path):
     return {'self': d, 'other': other}, {'globals': dict(lib.builtins(), isinstance=FuncV('isinstance', isinstance_), Triple=Triple)}, finish
 
 
+def _triple_eq_plain(path):
+    """comparison with something that is not a Triple: the own observable triple (objects, properties, bools) == other (order sensitive)"""
+    Triple = ObjV('class', {}, name='Triple')
+    other = ObjV('Arg', {}, name='other')
+    results = []
+    o, pr, b = (ObjV('Arg', {}, name='self.' + n) for n in ('objects', 'properties', 'bools'))
+    this = ObjV('Definition', {'objects': o, 'properties': pr, 'bools': b}, name='self')
+
+    def eq(p, a, k):
+        r = BoolV(p.fresh_bool('triple == other'))
+        results.append((a, r))
+        return r
+    other.fields['__eq__'] = FuncV('==', eq)       # (tuple) == other is evaluated through the comparison hook: args (other, tuple)
+
+    def finish(path, env, outcome):
+        ok = outcome[0] == 'return' and len(results) == 1 and isinstance(outcome[1], BoolV)
+        path.oblige('post/the-result-of-comparing-the-own-triple-with-other', 'post', (truthy(outcome[1]) == results[0][1].t) if ok else BoolVal(False))
+        if ok:
+            lhs = results[0][0][1]
+            path.oblige('post/triple-is-(objects, properties, bools)', 'post',
+                        BoolVal(isinstance(lhs, TupleV) and len(lhs.items) == 3 and lhs.items[0] is o and lhs.items[1] is pr and lhs.items[2] is b))
+    g = dict(lib.builtins(), isinstance=FuncV('isinstance', lambda p, a, k: BoolV(False)), Triple=Triple)
+    return {'self': this, 'other': other}, {'globals': g}, finish
+
+
+register(Unit('definitions.__eq__.plain', D, 'Triple.__eq__', _unit(_triple_eq_plain),
+              assumptions=['tuple == other is the builtin comparison (element-wise, order sensitive)'], linkage=[('concepts.Definition.__eq__', None)]))
 register(Unit('definitions.__eq__', D, 'Triple.__eq__', _unit(_triple_eq),
-              assumptions=['Set.__eq__ on tools.Unique compares element sets (order-insensitive; stdlib mixin, assumed); comparison with a plain triple is not covered here'],
+              assumptions=['Set.__eq__ on tools.Unique compares element sets (order-insensitive; stdlib mixin, assumed); comparison with a plain triple: unit definitions.__eq__.plain'],
               linkage=[('concepts.Definition.__eq__', None)]))
 
 
